@@ -296,8 +296,9 @@ ElemAttribute::startElement(StylesheetExecutionContext& executionContext) const
                 !equals(origAttrName, DOMServices::s_XMLNamespace))
         {
             // Don't try to create a namespace declaration for anything that
-            // starts with xml:
-            if (startsWith(origAttrName, DOMServices::s_XMLString) == true)
+            // starts with xml: (the prefix xml, not a prefix that merely
+            // begins with these letters)
+            if (startsWith(origAttrName, DOMServices::s_XMLStringWithSeparator) == true)
             {
                 // This just fakes out the test below.  It would be better if
                 // we had a better way of testing this...
@@ -608,8 +609,9 @@ ElemAttribute::execute(StylesheetExecutionContext&  executionContext) const
                 !equals(origAttrName, DOMServices::s_XMLNamespace))
         {
             // Don't try to create a namespace declaration for anything that
-            // starts with xml:
-            if (startsWith(origAttrName, DOMServices::s_XMLString) == true)
+            // starts with xml: (the prefix xml, not a prefix that merely
+            // begins with these letters)
+            if (startsWith(origAttrName, DOMServices::s_XMLStringWithSeparator) == true)
             {
                 // This just fakes out the test below.  It would be better if
                 // we had a better way of testing this...
